@@ -1,10 +1,19 @@
 //! rqmc: bounded-exhaustive sweeps over /repo's libpatch (see /verif/DESIGN.md, 4.1/4.2).
+mod c01;
+mod c02;
+mod c03;
+mod c20;
 mod util;
 
 fn main() {
     util::silence_panics();
     let a: Vec<String> = std::env::args().collect();
     match a.get(1).map(|s| s.as_str()) {
+        Some("c01") => c01::run(&a[2..]),
+        Some("c02") => c02::run(&a[2..]),
+        Some("c03") => c03::run("c03", &a[2..]),
+        Some("c20") => c20::run(&a[2..]),
+        Some("c04-pairs") => c03::run("c04", &a[2..]),
         _ => {
             eprintln!("usage: rqmc <c01|c02|c03|c04|c11|c12|c20|apply1> ...");
             std::process::exit(2);
